@@ -38,6 +38,8 @@ Separate Extraction
   Dot.known_phantom
   Dot.known_rx
   Dot.wf_cdfa
+  Dot.known_rx_all
+  Dot.rx_wf_b
   DotSpec.sub_ids
   DotRead.read
   DotRead.render_label
